@@ -113,6 +113,26 @@ def proj_items(d, meta):
     return out
 
 
+SERS = ("serpent", "json", "marshal", "msgpack", None)
+
+
+def wire(value, o):
+    """the answer as a remote caller gets it: through one of the four serializers (chosen by the operation itself, so that both
+    back-ends meet the same one), or directly"""
+    import zlib
+    name = SERS[zlib.crc32(json.dumps(o, sort_keys=True).encode()) % len(SERS)]
+    if name is None:
+        return value
+    from Pyro5 import serializers
+    ser = serializers.serializers[name]
+    try:
+        return ser.loads(ser.dumps(value))
+    except ValueError:
+        if name == "marshal":
+            return value        # (marshal converts a URI only at the top of an answer or in a list there: its limit, not the name server's)
+        raise
+
+
 def apply_op(ns, o, errors):
     op = o["op"]
     nm = name_str(o["name"]) if "name" in o else None
@@ -133,12 +153,12 @@ def apply_op(ns, o, errors):
                 n = ns.remove(prefix=arg)
             else:
                 n = ns.remove(regex=rx)
-            return res("count", n=n)
+            return res("count", n=wire(n, o))
         if op == "lookup":
             if o["meta"]:
-                uri, tg = ns.lookup(nm, return_metadata=True)
+                uri, tg = wire(ns.lookup(nm, return_metadata=True), o)
                 return res("entry", uri=URI_INV.get(str(uri), -1), tags=[TAG_INV.get(t, -1) for t in tg])
-            uri = ns.lookup(nm)
+            uri = wire(ns.lookup(nm), o)
             return res("entry", uri=URI_INV.get(str(uri), -1))
         if op == "list":
             if o["sel"] == "all":
@@ -147,13 +167,13 @@ def apply_op(ns, o, errors):
                 d = ns.list(prefix=arg, return_metadata=o["meta"])
             else:
                 d = ns.list(regex=rx, return_metadata=o["meta"])
-            return res("items", items=proj_items(d, o["meta"]))
+            return res("items", items=proj_items(wire(d, o), o["meta"]))
         if op == "yplookup":
             if o["mode"] == "all":
                 d = ns.yplookup(meta_all=tags, return_metadata=o["meta"])
             else:
                 d = ns.yplookup(meta_any=tags, return_metadata=o["meta"])
-            return res("items", items=proj_items(d, o["meta"]))
+            return res("items", items=proj_items(wire(d, o), o["meta"]))
         if op == "count":
             return res("count", n=ns.count())
         raise util.MachineryError("unknown op " + op)
